@@ -131,6 +131,13 @@ def c01(tier):
             classes = [lc] + steps if tier == "quick" else [lc, ("ext", 0) if lc[1] == 0 else lc, ("zeros", 0), ("ramp", 0) if lc[1] == 0 else lc] + steps
             classes = list(dict.fromkeys(classes))
             gen_core.wr_scenarios(S, fmt, ch, RATE, [T], Ns, rng, splits=0 if tier == "quick" else 2, seeks=False, classes=classes)
+    # channel counts that are not powers of two with calls above the 2048 / 4096 / 8192 item staging buffers
+    if tier == "quick":
+        for fmt, ch in _fmts(exe, tier, (3, 5)):
+            for T in "sifd":
+                lc = scen.lossless_class(fmt, T)
+                if lc:
+                    gen_core.wr_scenarios(S, fmt, ch, RATE, [T], [2750 if ch == 3 else 1700], rng, splits=0, seeks=False, classes=[lc])
     # every endianness option (LITTLE, BIG, CPU) of the multi-byte encodings the container accepts it for
     for fmt, ch in _fmts_endian(exe, chans):
         for T in "sifd":
@@ -316,7 +323,7 @@ def c09(tier):
     exe = vlib.build()
     rng = random.Random(vlib.SEED)
     S = scen.Script()
-    fmts = [0x10002, 0x20004, 0x30006, 0x10012, 0x180002, 0x40011] if tier == "quick" else [f for f, c in _fmts(exe, tier, (1,))]
+    fmts = [0x10002, 0x20004, 0x30006, 0x10012, 0x180002, 0x40011, 0x50003, 0x110002, 0x10013, 0x20041, 0x180070, 0x30030, 0xf0051] if tier == "quick" else [f for f, c in _fmts(exe, tier, (1,))]
     for fmt in fmts:
         for ch in (1, 2):
             for mode in ("r", "w", "rw"):
@@ -475,6 +482,14 @@ def c16(tier):
     for fmt, ch in fmts[:20]:
         gen_core.invalid_calls(S, fmt, ch, RATE, "rw", rng)
         gen_core.rdwr_random(S, fmt, ch, RATE, rng, steps=30, pre=10)
+    # Sound Designer II keeps its parameters in a resource fork beside the data file (path route only): every byte of the fork mutated
+    # in place, the open that follows fails (or succeeds) at every depth of the fork parser and must leave nothing behind
+    for fmt, ch in [(f, c) for f, c in _fmts(exe, tier, (1, 2)) if scen.major(f) == scen.SD2][::(2 if tier == "quick" else 1)]:
+        for k0 in range(0, 2 * 620, 200):
+            S.scn(fmt="0x%x" % fmt, ch=ch, kind="c16sd2", relax=1, k0=k0)
+            S.add("file 1 new", "open 0 path w 1 %d %d %d" % (fmt, ch, RATE), "setstr 0 1 5469746c65", "write 0 s f 64 gen noise 5 0", "close 0")
+            for k in range(k0, k0 + 200):
+                S.add("rsrc 1 %d" % k, "open 1 path r 1 0 0 0", "read 1 s f 5", "close 1", "rsrc 1 -1")
     # files rich in metadata (strings, chunks, cue points, bext, cart, channel map) rejected at many parse depths: mutated seeds
     od = os.path.join(vlib.ROOT, "out", "C16", tier)
     os.makedirs(od, exist_ok=True)
@@ -497,13 +512,23 @@ def c15(tier):
            (0xf0051, 1), (0x100002, 1), (0x110002, 1), (0x120002, 1), (0x130002, 2), (0x180002, 1), (0x180070, 1), (0x190011, 1), (0x210002, 1), (0x220002, 1)]
     ok = set(formats.writable(exe, chans=(1, 2), rate=RATE))
     rep = [x for x in rep if x in ok]
+    rest = []
     if tier == "quick":
+        rest = [x for i, x in enumerate(rep) if i % 3 != vlib.SEED % 3]
         rep = rep[vlib.SEED % 3::3]
     K = gen_env.c15_calibrate(exe, rep, RATE)
     total_k = 0
     for (fmt, ch, name), k in K.items():
         total_k += k
         gen_env.c15_scenarios(S, fmt, ch, RATE, name, k, step=1)
+    # on every change, the remaining containers get the part that their header parsers can get wrong: the read workload under
+    # persistent zero-length reads and length answers that are too big, at every fault point
+    if rest:
+        K2 = gen_env.c15_calibrate(exe, rest, RATE)
+        for (fmt, ch, name), k in K2.items():
+            if name == "r":
+                total_k += k
+                gen_env.c15_scenarios(S, fmt, ch, RATE, name, k, step=1, kinds=["zero", "lenbig"], stickies=(1,))
     mcs = [gen_core.mc_rw("RW", 2, tag=tier[0], maxwrites=1)]
     return core_check("C15", tier, mcs, S.lines, "DESIGN.md section 6 C15",
                       "representative formats (one per container and codec family) x workloads {write-close, open-read-seek-close, rdwr}: a fault-free run counts K callbacks, then EVERY fault point 1..K x {zero-length transfer, short transfer, failed seek, length too big, length too small} x {single shot, persistent} is executed (complete enumeration; sum of K = %d); TraceCore with widened outcome sets: return values in range, position advances by the returned count, every call returns (watchdog), ledger empty after close" % total_k,
@@ -685,6 +710,7 @@ def c18(tier):
     layouts = ["first", "last", "boundary", "ties", "zero"]
     chans = (1, 2) if tier == "quick" else (1, 2, 5)
     ok = set(formats.writable(exe, chans=chans, rate=RATE))
+    okall = set(formats.writable(exe, chans=chans, rate=RATE, endians=(0, 0x10000000, 0x20000000)))
     for fmt in peakf + ints + other:
         for ch in chans:
             if (fmt, ch) not in ok:
@@ -694,6 +720,12 @@ def c18(tier):
                     gen_env.c18_scenario(S, fmt, ch, RATE, rng, N, lay, 4 if tier == "quick" else 7)
             if scen.is_granular(fmt):
                 gen_env.c18_scenario(S, fmt, ch, RATE, rng, 37, "ties", 3, rdwr=True)
+            if fmt in peakf:
+                # float / double PEAK files written through the integer entry points (both byte orders where the container has them)
+                for en_ in (0, 0x20000000 if scen.major(fmt) in (1, 0x18) else 0x10000000 if scen.major(fmt) == 2 else 0):
+                    if (fmt | en_, ch) in okall:
+                        for wT in "si":
+                            gen_env.c18_scenario(S, fmt | en_, ch, RATE, rng, 37, "last" if wT == "s" else "boundary", 4, wT=wT)
     # every other seekable encoding: CALC must leave position and normalisation alone (values not predicted)
     for fmt, ch in formats.writable(exe, chans=(1,), rate=RATE):
         if fmt in peakf + ints + other or scen.major(fmt) == scen.SD2:
@@ -934,6 +966,32 @@ def _c02_xtype(tier):
         for T in "dfsi":
             S.add("seek 1 %d 0" % k, "read 1 %s i %d" % (T, 3 * ch))
         S.add("close 1")
+    # float / double files read through the integer types (scaling off): nearest integer, saturation with clipping on
+    import struct as _st
+    fvals = [0.0, 0.5, -0.5, 1.5, 2.5, -1.5, -2.5, 0.49999997, 0.75, 1.0, -1.0, 3.25, 100.5, 101.5, 32766.5, 32767.0, 32767.5, 32768.0, -32768.0, -32768.5, -32769.0, 65536.0, 1e6,
+             16777215.0, 16777216.0, 2147483520.0, 2147483648.0, -2147483648.0, -2147483904.0, 4294967296.0, -4294967296.0, 3e9, -3e9, 1e-3, -1e-3] + [rng.uniform(-40000, 40000) for _ in range(40)] + [rng.uniform(-3e9, 3e9) for _ in range(20)]
+    def ftok(x):
+        return str(_st.unpack("<i", _st.pack("<f", x))[0])
+    def dtok(x):
+        x = _st.unpack("<f", _st.pack("<f", x))[0]          # values exact in float, so that the dyadic mantissa stays below 2^30
+        b = _st.unpack("<q", _st.pack("<d", x))[0]
+        return "%d:%d" % (b >> 32, b & 0xFFFFFFFF)
+    ok = set(_fmts(exe, tier, (1, 2)))
+    for fmt in (0x40006, 0x20040006, 0x10006, 0x20006, 0x30006, 0x180006, 0x40007, 0x10007, 0x20007) if tier == "quick" else [f for f, c in ok if scen.sub(f) in (6, 7) and c == 1]:
+        for ch in (1, 2):
+            if (fmt & 0x0FFFFFFF, ch) not in ok and (fmt, ch) not in ok:
+                continue
+            Tw = "f" if scen.sub(fmt) == 6 else "d"
+            vals = fvals[:len(fvals) // ch * ch]
+            for clip in (0, 1):
+                S.scn(fmt="0x%x" % fmt, ch=ch, T=Tw, kind="f2int", fmode=1, clip=clip)
+                S.add("file 1 new", "open 0 vio w 1 %d %d %d" % (fmt, ch, RATE), "write 0 %s i %d %s" % (Tw, len(vals), " ".join((ftok if Tw == "f" else dtok)(v) for v in vals)), "close 0",
+                      "open 1 vio r 1 %d %d %d" % (fmt if scen.major(fmt) == scen.RAW else 0, ch, RATE))
+                if clip:
+                    S.add("cmd 1 SET_CLIPPING 1")
+                for T in "is":
+                    S.add("seek 1 0 0", "read 1 %s i %d" % (T, len(vals)))
+                S.add("seek 1 0 0", "read 1 %s i %d" % (Tw, len(vals)), "close 1")
     return [(S.lines, "TraceCore.tla", "TraceCore.cfg", "xtype")]
 
 
